@@ -7,7 +7,7 @@ ENGINE = "LoggerSim"
 RULE = ("Seeded plans: member set from {MemoryLogger, StandardLogger, OrbaxCheckpointer} (1-3, optionally inside LoggerList) x call histories "
         "of 5-80 operations from define_experiment / define_checkpoint_frequency / start_new_episode / stop_episode(n) / record_stat with "
         "explicit or implicit episode, step, t / record_epoch with explicit (repeats, +1, jumps over several intervals, exact multiples) or "
-        "implicit steps / clock jumps forward and backward, under a simulated clock that logs every read. Real Orbax on a per-run scratch "
+        "implicit steps / clock jumps forward and backward / injected checkpoint-write failures (ENOSPC raised once by the member's checkpointer), under a simulated clock that logs every read. Real Orbax on a per-run scratch "
         "directory. Reference: python lists. Distinct = distinct (members, list?, op kinds, intervals, fault kinds, length).")
 REAL = ["MemoryLogger", "StandardLogger", "OrbaxCheckpointer", "LoggerList", "orbax.checkpoint.StandardCheckpointer", "file system"]
 STUB = ["clock (SimClock installed as the `time` attribute of rl_blox.logging.logger / .checkpointer)"]
@@ -15,7 +15,7 @@ ASSUMPTIONS = ["steps per key are non-decreasing and checkpoint frequencies are 
                "implicit time field = (some clock read made during that very call) - (some clock read made during define_experiment, or 0)"]
 TIERS = {"quick": {"runs": 400}, "thorough": {"runs": 12000}}
 REQUIRED = ["stat_series_checked", "implicit_time_checked", "checkpoints_restored", "list_members_compared", "clock_jump_backward",
-            "jump_over_several_intervals", "exact_multiple", "repeated_step", "epoch_without_frequency"]
+            "jump_over_several_intervals", "exact_multiple", "repeated_step", "epoch_without_frequency", "checkpoint_write_failed", "checkpoints_restored_after_write_fault"]
 REQUIRED_QUICK = REQUIRED
 SHRINK_LISTS = [["ops"]]
 SHRINK_INTS = []
